@@ -101,6 +101,8 @@ structure SwitchSim (M : Maps) (ns : Array NodeM) (n : NodeM) (c : CRow) (es : L
   dflt : DestIs M ns r.dflt.dest (((es.filter (·.cond.blank)).getLast?).map (·.tgt))
   nr : ∀ nr, r.noResp = some nr →
     DestIs M ns nr.dest ((((es.filter (fun e => !e.cond.blank)).filter (fun e => isNR e.cond)).getLast?).map (·.tgt))
+  names : r.cats.map (·.name) = namesFrom (kindOf c.row.type) (timeoutOf c.row) [] (testsOf (kindOf c.row.type) es) ∧
+    ([r.dflt] ++ r.noResp.toList).map (·.name) = baseNames (kindOf c.row.type) (timeoutOf c.row)
 
 /-! #### rows with fixed outcomes -/
 
@@ -198,7 +200,7 @@ theorem NodeSim.ext {M : Maps} {ns ns' : Array NodeM} (h : NExt ns ns') {n : Nod
   | plain hk hp => exact .plain hk ⟨hp.kind, hp.router, hp.acts, hp.dest.ext h, hp.blank⟩
   | sw r hk hp =>
     refine .sw r hk ⟨hp.kind, hp.acts, hp.router, hp.operand, hp.rname, hp.wait, hp.nrSome, hp.cases, hp.casecat,
-      ?_, hp.dflt.ext h, fun nr hnr => (hp.nr nr hnr).ext h⟩
+      ?_, hp.dflt.ext h, fun nr hnr => (hp.nr nr hnr).ext h, hp.names⟩
     exact hp.catd.imp (fun _ _ hd => hd.ext h)
   | fix r sc hk hp =>
     exact .fix r sc hk ⟨hp.kind, hp.acts, hp.router, hp.operand, hp.rname, hp.wait, hp.noResp, hp.cats, hp.sname,
@@ -237,6 +239,8 @@ structure ImplSim (M : Maps) (ns : Array NodeM) (n : NodeM) (c : CRow) (es : Lis
   catd : List.Forall₂ (fun (cat : Cat) (e : OutEdge) => DestIs M ns cat.dest (some e.tgt)) r.cats (testsOf .action es)
   dflt : DestIs M ns r.dflt.dest (((es.filter (·.cond.blank)).getLast?).map (·.tgt))
   some : testsOf .action es ≠ []
+  names : r.cats.map (·.name) = namesFrom .action (timeoutOf c.row) [] (testsOf .action es) ∧
+    r.dflt.name = "Other".toList
 
 /-- the nodes of a row: one node, or (action row with conditional out-edges) two -/
 inductive RowSim (M : Maps) (ns : Array NodeM) (n : NodeM) (c : CRow) (es : List OutEdge) : Option Nat → Prop
@@ -251,7 +255,7 @@ theorem RowSim.transfer {M : Maps} {ns ns' : Array NodeM} (h : NExt ns ns') {n :
   | one hn => exact .one (hn.ext h)
   | impl i' n' r hk hp =>
     refine .impl i' n' r hk ⟨hp.kind, hp.router, hp.acts, hp.link, by rw [hro i' (by simp)]; exact hp.rnode, hp.kind',
-      hp.acts', hp.router', hp.operand, hp.rname, hp.wait, hp.noResp, hp.cases, hp.casecat, ?_, hp.dflt.ext h, hp.some⟩
+      hp.acts', hp.router', hp.operand, hp.rname, hp.wait, hp.noResp, hp.cases, hp.casecat, ?_, hp.dflt.ext h, hp.some, hp.names⟩
     exact hp.catd.imp (fun _ _ hd => hd.ext h)
 
 theorem DestIs.congrN {M M' : Maps} (hM : ∀ t, M'.nOf t = M.nOf t) {ns : Array NodeM} {d : Dest} {t : Option Target}
@@ -272,7 +276,7 @@ theorem NodeSim.congrN {M M' : Maps} (hM : ∀ t, M'.nOf t = M.nOf t) {ns : Arra
   | plain hk hp => exact .plain hk ⟨hp.kind, hp.router, hp.acts, hp.dest.congrN hM, hp.blank⟩
   | sw r hk hp =>
     refine .sw r hk ⟨hp.kind, hp.acts, hp.router, hp.operand, hp.rname, hp.wait, hp.nrSome, hp.cases, hp.casecat,
-      ?_, hp.dflt.congrN hM, fun nr hnr => (hp.nr nr hnr).congrN hM⟩
+      ?_, hp.dflt.congrN hM, fun nr hnr => (hp.nr nr hnr).congrN hM, hp.names⟩
     exact hp.catd.imp (fun _ _ hd => hd.congrN hM)
   | fix r sc hk hp =>
     exact .fix r sc hk ⟨hp.kind, hp.acts, hp.router, hp.operand, hp.rname, hp.wait, hp.noResp, hp.cats, hp.sname,
@@ -287,7 +291,7 @@ theorem RowSim.congrN {M M' : Maps} (hM : ∀ t, M'.nOf t = M.nOf t) {ns : Array
   | one hn => exact .one (hn.congrN hM)
   | impl i' n' r hk hp =>
     refine .impl i' n' r hk ⟨hp.kind, hp.router, hp.acts, hp.link, hp.rnode, hp.kind',
-      hp.acts', hp.router', hp.operand, hp.rname, hp.wait, hp.noResp, hp.cases, hp.casecat, ?_, hp.dflt.congrN hM, hp.some⟩
+      hp.acts', hp.router', hp.operand, hp.rname, hp.wait, hp.noResp, hp.cases, hp.casecat, ?_, hp.dflt.congrN hM, hp.some, hp.names⟩
     exact hp.catd.imp (fun _ _ hd => hd.congrN hM)
 
 /-- the arena indices of the nodes of row `j` -/
@@ -466,6 +470,29 @@ theorem take7_bucket (x : Str) : ("Bucket ".toList ++ x).take 7 = "Bucket ".toLi
 
 theorem head_hash (x : Str) : ("#".toList ++ x).head? = some '#' := rfl
 
+/-- the names of all categories of a deciding row -/
+theorem SwitchSim.allNames {M : Maps} {ns : Array NodeM} {n : NodeM} {c : CRow} {es : List OutEdge} {r : SwitchR}
+    (hp : SwitchSim M ns n c es r) :
+    r.allCats.map (·.name) = namesFrom (kindOf c.row.type) (timeoutOf c.row) [] (testsOf (kindOf c.row.type) es) ++
+      baseNames (kindOf c.row.type) (timeoutOf c.row) := by
+  unfold SwitchR.allCats
+  rw [List.append_assoc, List.map_append, hp.names.1, hp.names.2]
+
+theorem args_switch (t : Str) (cond : Compile.Cond)
+    (htype : t = "wait_for_response".toList ∨ t = "split_by_value".toList ∨ t = "split_by_group".toList) :
+    (if t = "split_by_group".toList then [none, some cond.value] else [some cond.value] : List (Option Str)) =
+      argsOf (kindOf t) (toRCond cond) := by
+  unfold argsOf
+  rcases htype with h | h | h <;> subst h
+  · rw [if_neg ne_wg, kindOf_wait, if_neg (by decide)]; rfl
+  · rw [if_neg ne_vg, kindOf_value, if_neg (by decide)]; rfl
+  · rw [if_pos rfl, kindOf_group, if_pos rfl]; rfl
+
+theorem catByName_none_of_not_mem (r : SwitchR) (nm : Str) (h : nm ∉ r.allCats.map (·.name)) : r.catByName nm = none := by
+  cases hc : r.catByName nm with
+  | none => rfl
+  | some c0 => exact absurd ((catByName_isSome_iff r nm).mp (by simp [hc])) h
+
 section
 variable (rows : List CRow) (M : Maps) (pd : Bool) (kg : Nat) (d : Dest) (tgt : Target) (cond : Compile.Cond) (s : St) (st : P1) (j : Nat)
   (n : NodeM) (c : CRow)
@@ -525,7 +552,8 @@ theorem sw_blank_sim (r : SwitchR) (hk : kindOf c.row.type = .wait ∨ kindOf c.
     rfl htg (set_getElem?_self _ hn) (fun i hi => set_getElem?_other _ _ _ _ hi) rfl rfl rfl rfl ?_
   have hext : NExt s.nodes (s.nodes.setIfInBounds (M.nOf j) { n with router := some (.sw (r.setDflt d)) }) :=
     NExt.set hn rfl
-  refine .sw (r.setDflt d) hk ⟨hp.kind, hp.acts, rfl, hp.operand, hp.rname, hp.wait, hp.nrSome, ?_, hp.casecat, ?_, ?_, ?_⟩
+  refine .sw (r.setDflt d) hk ⟨hp.kind, hp.acts, rfl, hp.operand, hp.rname, hp.wait, hp.nrSome, ?_, hp.casecat, ?_, ?_, ?_,
+    ⟨by rw [testsOf_append_skip _ _ _ (.inl heb)]; exact hp.names.1, hp.names.2⟩⟩
   · rw [testsOf_append_skip _ _ _ (.inl heb)]; exact hp.cases
   · rw [testsOf_append_skip _ _ _ (.inl heb)]
     exact hp.catd.imp (fun _ _ hd => hd.ext hext)
@@ -554,7 +582,8 @@ theorem sw_nr_sim (r : SwitchR) (hk : kindOf c.row.type = .wait) (hp : SwitchSim
     refine Rel.update h (newEdge tgt cond j) rfl hj hn hc hnode hro
       (n' := { n with router := some (.sw { r with noResp := some { nr with dest := d } }) })
       rfl htg (set_getElem?_self _ hn) (fun i hi => set_getElem?_other _ _ _ _ hi) rfl rfl rfl rfl ?_
-    refine .sw _ (.inl hk) ⟨hp.kind, hp.acts, rfl, hp.operand, hp.rname, hp.wait, ?_, ?_, hp.casecat, ?_, ?_, ?_⟩
+    refine .sw _ (.inl hk) ⟨hp.kind, hp.acts, rfl, hp.operand, hp.rname, hp.wait, ?_, ?_, hp.casecat, ?_, ?_, ?_,
+      ⟨by rw [htests]; exact hp.names.1, by have := hp.names.2; rw [hnoresp] at this; exact this⟩⟩
     · simp only [Option.isSome_some, true_iff]; exact ⟨w, hwait⟩
     · rw [htests]; exact hp.cases
     · rw [htests]; exact hp.catd.imp (fun _ _ hd => hd.ext hext)
@@ -574,7 +603,8 @@ theorem sw_nr_sim (r : SwitchR) (hk : kindOf c.row.type = .wait) (hp : SwitchSim
         exact absurd hm (by intro hm; exact hnot nr m hnoresp hm)
     refine Rel.update h (newEdge tgt cond j) rfl hj hn hc hnode hro (n' := n) rfl htg hn (fun i _ => rfl) rfl rfl rfl rfl ?_
       (hfr := fun r hr => by have h2 : n.router = some (.rnd r) := hr; rw [hp.router] at h2; cases h2)
-    refine .sw r (.inl hk) ⟨hp.kind, hp.acts, hp.router, hp.operand, hp.rname, hp.wait, hp.nrSome, ?_, hp.casecat, ?_, ?_, ?_⟩
+    refine .sw r (.inl hk) ⟨hp.kind, hp.acts, hp.router, hp.operand, hp.rname, hp.wait, hp.nrSome, ?_, hp.casecat, ?_, ?_, ?_,
+      ⟨by rw [htests]; exact hp.names.1, hp.names.2⟩⟩
     · rw [htests]; exact hp.cases
     · rw [htests]; exact hp.catd
     · rw [blanks_append_cond _ _ heb]; exact hp.dflt
@@ -586,7 +616,9 @@ theorem sw_test_sim (r : SwitchR) (hk : kindOf c.row.type = .wait ∨ kindOf c.r
     (hnr : kindOf c.row.type = .wait → Compile.lower cond.value ≠ "no response".toList)
     (hnrs : (kindOf c.row.type = .splitValue ∨ kindOf c.row.type = .splitGroup) →
       Compile.lower cond.value ≠ "no response".toList)
-    (hvar : kindOf c.row.type = .wait → cond.var = []) (hname : cond.name = [])
+    (hvar : kindOf c.row.type = .wait → cond.var = [])
+    (hfreeN : cond.name ≠ [] → cond.name ∉ namesFrom (kindOf c.row.type) (timeoutOf c.row) []
+      (testsOf (kindOf c.row.type) (outOf st j)) ++ baseNames (kindOf c.row.type) (timeoutOf c.row))
     (hdist : ((testsOf (kindOf c.row.type) (outOf st j ++ [newEdge tgt cond j])).map
       (fun e => refTest (kindOf c.row.type) e.cond)).Nodup) :
     wp (rowExitCond (gOf rows j) [M.nOf j] c.row.type (M.nOf j) n d cond) s (EdgePost rows M pd kg tgt cond s st j) := by
@@ -604,19 +636,20 @@ theorem sw_test_sim (r : SwitchR) (hk : kindOf c.row.type = .wait ∨ kindOf c.r
   simp only [hnb, if_false]
   wp_simp
   unfold nodeAddChoice
-  simp only [hp.router, hname]
+  simp only [hp.router]
   wp_simp [wp_setNode]
   -- the stored test is the reference's test
   have hstored0 := stored_test c.row.type cond htype
+  have hargs0 := args_switch c.row.type cond htype
   generalize hty : (if (if c.row.type = "split_by_group".toList then "has_group".toList else cond.type).isEmpty = true
       then "has_any_word".toList
       else (if c.row.type = "split_by_group".toList then "has_group".toList else cond.type)) = ty at hstored0 ⊢
   generalize hargs : (if c.row.type = "split_by_group".toList then [none, some cond.value] else [some cond.value] :
-      List (Option Str)) = args at hstored0 ⊢
+      List (Option Str)) = args at hstored0 hargs0 ⊢
   have hstored : (ty, (if s.noArgs.contains ty then [] else args).map (·.getD [])) =
       refTest (kindOf c.row.type) (newEdge tgt cond j).cond := by
     rw [h.args]; exact hstored0
-  refine addChoice_new r _ ty args d s ?_ _ ?_
+  refine addChoice_any r _ ty args cond.name d s ?_ ?_ _ ?_
   · -- no case with this test yet
     intro k hkm ⟨e1, e2⟩
     have hmem : (k.type, k.args.map (·.getD [])) ∈ r.cases.map (fun k => (k.type, k.args.map (·.getD []))) :=
@@ -626,6 +659,10 @@ theorem sw_test_sim (r : SwitchR) (hk : kindOf c.row.type = .wait ∨ kindOf c.r
       rw [← hstored, e1, e2]
     rw [this] at hmem
     exact hdist.2.2 _ hmem _ (by simp) rfl
+  · -- an explicit category name is not in use
+    intro hne
+    refine catByName_none_of_not_mem r _ ?_
+    rw [hp.allNames]; exact hfreeN hne
   · intro _
     wp_simp [wp_setNode]
     -- the operand does not change
@@ -636,15 +673,24 @@ theorem sw_test_sim (r : SwitchR) (hk : kindOf c.row.type = .wait ∨ kindOf c.r
         else if ¬ cond.var.isEmpty = true then (cond.var, none) else ("@input.text".toList, some 0)).1 = op at hopd0 ⊢
     have hopd : (if op.isEmpty = true then r.operand else op) = r.operand := hopd0
     rw [hopd]
+    -- the name of the new category
+    obtain ⟨nm, hnm⟩ : ∃ nm : Str, nm = if cond.name.isEmpty = true
+        then genCatName (if op.isEmpty = true then r else { r with operand := op }) args else cond.name := ⟨_, rfl⟩
+    rw [← hnm]
+    have hnm2 : nm = catNameOf (kindOf c.row.type) (timeoutOf c.row)
+        (namesFrom (kindOf c.row.type) (timeoutOf c.row) [] (testsOf (kindOf c.row.type) (outOf st j))) (newEdge tgt cond j).cond := by
+      rw [hnm]
+      unfold catNameOf
+      have e0 : (newEdge tgt cond j).cond.name = cond.name := rfl
+      rw [e0, genCatName_eq, ← hargs0]
+      have e1 : (if op.isEmpty = true then r else { r with operand := op }).allCats = r.allCats := by split <;> rfl
+      rw [e1, hp.allNames]
     obtain ⟨r', hr'⟩ : ∃ r' : SwitchR, r' = { r with
-        cats := r.cats ++ [{ uid := tid s.next, name := genCatName (if op.isEmpty = true then r else { r with operand := op }) args,
-                             exitUid := tid (s.next + 1), dest := d }],
-        cases := r.cases ++ [{ uid := tid (s.next + 2), type := ty,
-                               args := if s.noArgs.contains ty = true then [] else args, catUid := tid s.next }] } := ⟨_, rfl⟩
+        cats := r.cats ++ [Cat.mk (tid s.next) nm (tid (s.next + 1)) d],
+        cases := r.cases ++ [Case.mk (tid (s.next + 2)) ty (if s.noArgs.contains ty = true then [] else args) (tid s.next)] } := ⟨_, rfl⟩
     have hr'' : ({ r with
         operand := r.operand,
-        cats := r.cats ++ [{ uid := tid s.next, name := genCatName (if op.isEmpty = true then r else { r with operand := op }) args,
-                             exitUid := tid (s.next + 1), dest := d }],
+        cats := r.cats ++ [{ uid := tid s.next, name := nm, exitUid := tid (s.next + 1), dest := d }],
         cases := r.cases ++ [{ uid := tid (s.next + 2), type := ty,
                                args := if s.noArgs.contains ty = true then [] else args, catUid := tid s.next }] } : SwitchR) = r' := by
       rw [hr']
@@ -652,18 +698,23 @@ theorem sw_test_sim (r : SwitchR) (hk : kindOf c.row.type = .wait ∨ kindOf c.r
     have hext : NExt s.nodes (s.nodes.setIfInBounds (M.nOf j) { n with router := some (.sw r') }) := NExt.set hn rfl
     refine Rel.update h (newEdge tgt cond j) rfl hj hn hc hnode hro (n' := { n with router := some (.sw r') })
       rfl htg (set_getElem?_self _ hn) (fun i hi => set_getElem?_other _ _ _ _ hi) rfl rfl rfl rfl ?_
-    have fcats : ∃ nm, r'.cats = r.cats ++ [{ uid := tid s.next, name := nm, exitUid := tid (s.next + 1), dest := d }] :=
-      ⟨_, by rw [hr']⟩
+    have fcats : r'.cats = r.cats ++ [{ uid := tid s.next, name := nm, exitUid := tid (s.next + 1), dest := d }] := by
+      rw [hr']
     have fcases : r'.cases = r.cases ++ [{ uid := tid (s.next + 2), type := ty, args := if s.noArgs.contains ty = true then [] else args, catUid := tid s.next }] := by
       rw [hr']
-    obtain ⟨nm, fcats⟩ := fcats
     have fop : r'.operand = r.operand := by rw [hr']
     have frn : r'.resultName = r.resultName := by rw [hr']
     have fw : r'.wait = r.wait := by rw [hr']
     have fnr : r'.noResp = r.noResp := by rw [hr']
     have fd : r'.dflt = r.dflt := by rw [hr']
     refine .sw r' hk ⟨hp.kind, hp.acts, rfl, by rw [fop]; exact hp.operand, by rw [frn]; exact hp.rname,
-      by rw [fw]; exact hp.wait, by rw [fnr, fw]; exact hp.nrSome, ?_, ?_, ?_, ?_, ?_⟩
+      by rw [fw]; exact hp.wait, by rw [fnr, fw]; exact hp.nrSome, ?_, ?_, ?_, ?_, ?_, ?_⟩
+    rotate_right
+    · constructor
+      · rw [fcats, htests, namesFrom_append, List.map_append, hp.names.1]
+        simp only [List.map_cons, List.map_nil, namesFrom]
+        rw [hnm2]
+      · rw [fd, fnr]; exact hp.names.2
     · rw [htests, fcases]
       simp only [List.map_append, List.map_cons, List.map_nil, hp.cases]
       rw [hstored]
